@@ -233,6 +233,40 @@ def run_case(case, real_pool=False):
     if not models.deep_eq(got, want):
         core.violated("result-mismatch", _first_diff(got, want))
 
+    # ---- twin sweep: the same grid again (same process), with every
+    # integer turned into the equal float and vice versa: the function must
+    # be called with the objects of THIS sweep (nothing cached from the last)
+    if case.get("twin") and dup is None and t in ("seq", "fake_submit",
+                                                  "fake_apply_async"):
+        def flip(v):
+            if isinstance(v, bool) or isinstance(v, str):
+                return v
+            if isinstance(v, int):
+                return float(v)
+            if isinstance(v, float) and v == int(v) and abs(v) < 2 ** 50:
+                return int(v)
+            return v
+        args2 = [[nm, [flip(v) for v in vs]] for nm, vs in args]
+        if any(type(a) is not type(b) for (_, va), (_, vb) in
+               zip(args, args2) for a, b in zip(va, vb)):
+            models.LOG.clear()
+            opts2 = {k: v for k, v in opts.items() if k != "executor"}
+            with under_test("combo_runner (twin sweep)"):
+                x.combo_runner(fn, {nm: list(vs) for nm, vs in args2},
+                               **opts2)
+            want_t = collections.Counter(
+                tuple(sorted((k, type(v).__name__, repr(v))
+                             for k, v in zip(names, combo)))
+                for combo in itertools.product(*[v for _, v in args2]))
+            got_t = collections.Counter(
+                tuple(sorted((k, type(models.plain_typed(kw[k])).__name__,
+                              repr(models.plain_typed(kw[k])))
+                             for k in names)) for kw in models.LOG)
+            require(got_t == want_t, "stale-arguments",
+                    lambda: f"second sweep over {args2!r:.200}: the function "
+                            f"received {list((got_t - want_t).elements())[:2]}"
+                            f" instead of "
+                            f"{list((want_t - got_t).elements())[:2]}")
     lens = [len(v) for v in vals]
     nt = (len(args) >= 2 and len(set(lens)) > 1) or len(args) >= 4 \
         or t != "seq" or strat.get("shuffle")
@@ -289,7 +323,8 @@ def strategy(draw, types=IN_PROCESS, max_args=5):
         strat["shuffle"] = sh
     if t.startswith("fake"):
         strat["perm_seed"] = draw(st.integers(0, 10**6))
-    case = {"args": args, "spelling": spell, "containers": conts,
+    case = {"twin": draw(st.booleans()),
+            "args": args, "spelling": spell, "containers": conts,
             "constants": consts, "kind": kind, "split": split, "flat": flat,
             "strategy": strat}
     if draw(st.sampled_from([False] * 19 + [True])):
